@@ -66,10 +66,19 @@ finally:
 meta['caught_by'] = [p for p, r in meta['checks_run'].items() if r['exit'] == 1 and r['violations'] > 0]
 out_dir = '/verif/seeded/' + name
 os.makedirs(out_dir, exist_ok=True)
-shutil.copy(patch, os.path.join(out_dir, 'patch.diff'))
-shutil.copy(demo, os.path.join(out_dir, 'demo_test.go'))
-if os.path.exists(os.path.join(src, 'notes.md')):
-    shutil.copy(os.path.join(src, 'notes.md'), os.path.join(out_dir, 'notes.md'))
+if os.path.abspath(src) != os.path.abspath(out_dir):
+    shutil.copy(patch, os.path.join(out_dir, 'patch.diff'))
+    shutil.copy(demo, os.path.join(out_dir, 'demo_test.go'))
+    if os.path.exists(os.path.join(src, 'notes.md')):
+        shutil.copy(os.path.join(src, 'notes.md'), os.path.join(out_dir, 'notes.md'))
+elif os.path.exists(os.path.join(out_dir, 'meta.json')):
+    # re-evaluation of a stored seed: keep its descriptive fields
+    old = json.load(open(os.path.join(out_dir, 'meta.json')))
+    for k in ('needs_to_manifest', 'history', 'what_was_run', 'breaks_property', 'demo_package_dir'):
+        if k in old:
+            meta[k] = old[k]
+    if 'demo_package_dir' in old and demo_dir == '.':
+        pass
 meta['demo_package_dir'] = demo_dir
 json.dump(meta, open(os.path.join(out_dir, 'meta.json'), 'w'), indent=1)
 ok = meta['builds'] and meta['suite_passes_with_change'] and meta['demo_fails_with_change'] and meta['demo_passes_without_change']
